@@ -504,6 +504,19 @@ impl<'forest, I: Interner> SolveState<'forest, I> {
         // Check for a tabled answer.
         if let Some(answer) = self.forest.tables[initial_table].answer(initial_answer) {
             info!("answer cached = {:?}", answer);
+            // The answer may have been tabled while this table was only a
+            // subgoal of some other root goal. Its delayed subgoals were
+            // then left for that root to prove out; now that this table is
+            // the root itself, they have to be proven here, or the answer
+            // would be rejected as invalid and silently lost.
+            if !answer.subst.value.delayed_subgoals.is_empty() {
+                let answer = answer.clone();
+                if self.forest.tables[initial_table].mark_refined(initial_answer) {
+                    if let Some(strand) = self.create_refinement_strand(initial_table, &answer) {
+                        self.forest.tables[initial_table].enqueue_strand(strand);
+                    }
+                }
+            }
             return Ok(());
         }
 
@@ -1059,6 +1072,7 @@ impl<'forest, I: Interner> SolveState<'forest, I> {
 
                         let answer = self.forest.answer(table, answer_index);
                         if let Some(strand) = self.create_refinement_strand(table, answer) {
+                            self.forest.tables[table].mark_refined(answer_index);
                             self.forest.tables[table].enqueue_strand(strand);
                         }
 
